@@ -349,6 +349,21 @@ pub fn wait_for_cq(fd: i32, want: u32) -> bool {
     }
 }
 
+/// True while a schedule (controlled or free-running) is being executed.
+pub fn in_schedule() -> bool {
+    ACTIVE.load(Ordering::Relaxed) || FREE_MODE.load(Ordering::Relaxed)
+}
+
+/// Debugging aid: the state of every thread of the running schedule.
+pub fn statuses() -> String {
+    let _m = MonGuard::new();
+    let g = STATE.lock().unwrap_or_else(|e| e.into_inner());
+    match g.as_ref() {
+        Some(st) => format!("current={} steps={} statuses={:?}", st.current, st.steps, st.status),
+        None => "no schedule".into(),
+    }
+}
+
 /// Block the calling thread until `cond` holds. Returns false if it can never
 /// become true because no other thread can run (or the schedule was aborted).
 pub fn wait_until(cond: impl Fn() -> bool + Send + 'static) -> bool {
@@ -434,6 +449,12 @@ pub fn yield_now() {
         notify_all();
         return;
     }
+    // PCT: a thread that yields (a busy-wait loop, the simulated kernel thread) drops to the
+    // lowest priority, otherwise a spinning high-priority thread starves the thread it waits for.
+    if let Some(p) = st.pct.as_mut() {
+        let low = p.prio.iter().copied().min().unwrap_or(1).saturating_sub(1);
+        p.prio[me] = low;
+    }
     match pick(st, me, true) {
         Some(next) if next != me => {
             switch_to(st, me, next);
@@ -510,7 +531,7 @@ pub fn run(threads: Vec<Box<dyn FnOnce() + Send>>, seed: u64, policy: Policy, ma
     let (switch_pm, pct) = match policy {
         Policy::Random(pm) => (pm, None),
         Policy::Pct(d, k) => {
-            let mut prio: Vec<u32> = (0..n as u32).map(|i| 100 + i).collect();
+            let mut prio: Vec<u32> = (0..n as u32).map(|i| 1_000_000 + i).collect();
             rng.shuffle(&mut prio);
             let change_at: Vec<u64> = (0..d).map(|_| 1 + rng.below(k.max(1))).collect();
             (0, Some(Pct { prio, change_at }))
